@@ -244,6 +244,18 @@ theorem chain_is_the_installed_one :
     dispatch_order = installed.reverse ∧ install_at_front = true ∧ install_extra_args = false ∧
     users_dict = "{username: password}" ∧ wrap_guard = "username" ∧ dispatch_first_match_returns = true := by decide
 
+/-- **users_built_per_server.**  In `make_http_servers` the only statement that binds or mutates
+    `users` is `users = {username: password}`, inside the loop over the server configurations and
+    under `if username:`; `username`/`password` are read there from that configuration; the server
+    object and the five handlers are built inside the loop too.  (Hoisting the dictionary out of
+    the loop, or filling a shared one, changes this regenerated table.) -/
+theorem users_built_per_server :
+    users_per_server = true ∧
+    users_bindings = [("users = {username: password}", "loop/if:username")] ∧
+    cred_sources = [("username", "config['username']", "loop"), ("password", "config['password']", "loop")] ∧
+    server_loop = ("config", "options.server_configs") ∧
+    all_built_in_loop = true := by decide
+
 /-- the regexp the model implements as `parseAuthLine` is the one in the source, and the decoding
     `try` does not enclose the authorizer call (so a missing colon is an exception, not a 400) -/
 theorem modelled_source_shape :
@@ -285,6 +297,32 @@ theorem served_iff_authorized (P : Params) (user stored : Bytes) (hne : user ≠
       have := (handle_inner_iff P user stored header user p).mpr ⟨rfl, s, c, d, h1, h2, h3, h4, h5, h6, h7⟩
       rw [this]; rfl
 
+/-- each server's wrappers consult the dictionary made of that server section alone -/
+theorem serveAt_own_section (P : Params) (secs : List Section) (i : Nat) (s : Section)
+    (hits : String → Bool) (header : List Bytes) (h : secs[i]? = some s) :
+    serveAt P secs i hits header = some (serve P s.username s.password hits header) := by
+  have hp : users_per_server = true := users_built_per_server.1
+  simp only [serveAt, h, usersFor, hp, if_true, entryOf]
+  rfl
+
+/-- **served_iff_authorized, per server.**  With any number of server sections, of any kinds and
+    with any credentials (or none) on the others: a request to the server of section `i`, whose
+    username is non-empty, runs a handler **iff** a handler matches and the request carries
+    exactly section `i`'s own credentials. -/
+theorem served_iff_authorized_per_server (P : Params) (secs : List Section) (i : Nat)
+    (user stored : Bytes) (hs : secs[i]? = some ⟨some user, some stored⟩) (hne : user ≠ [])
+    (hits : String → Bool) (header : List Bytes) :
+    (∃ a, serveAt P secs i hits header = some a ∧ a.invoked.isSome = true) ↔
+      (SomeHandlerMatches hits ∧ Authorized P user stored header) := by
+  rw [serveAt_own_section P secs i _ hits header hs]
+  constructor
+  · rintro ⟨a, ha, hi⟩
+    simp only [Option.some.injEq] at ha
+    subst ha
+    exact (served_iff_authorized P user stored hne hits header).mp hi
+  · intro h
+    exact ⟨_, rfl, (served_iff_authorized P user stored hne hits header).mpr h⟩
+
 /-- the credentials handed to the handler are the configured user and the password received -/
 theorem served_with_configured_user (P : Params) (user stored : Bytes) (hne : user ≠ [])
     (hits : String → Bool) (header : List Bytes) (name : String) (ai : Option (Bytes × Bytes))
@@ -322,6 +360,14 @@ theorem refused_has_no_effect (P : Params) (user stored : Bytes) (hne : user ≠
     exfalso
     have := (served_iff_authorized P user stored hne hits header).mp (by rw [hi]; rfl)
     exact h this.2
+
+/-- … in particular the credentials of *another* section do not open this server -/
+theorem other_sections_credentials_refused (P : Params) (secs : List Section) (i : Nat)
+    (user stored : Bytes) (hs : secs[i]? = some ⟨some user, some stored⟩) (hne : user ≠ [])
+    (hits : String → Bool) (header : List Bytes) (hnot : ¬ Authorized P user stored header) :
+    ∃ a, serveAt P secs i hits header = some a ∧ a.invoked = none := by
+  rw [serveAt_own_section P secs i _ hits header hs]
+  exact ⟨_, rfl, refused_has_no_effect P user stored hne hits header hnot⟩
 
 /-- **refusal_status.**  A request that matches a handler but is not authorised is answered
     401 with the Basic challenge, or 400 (undecodable cookie), or 500 (decoded text without a
@@ -424,6 +470,12 @@ example : serve toyP (some [117]) (some [112]) (fun _ => true) [([65, 117, 116, 
 -- undecodable cookie: 400
 example : serve { toyP with b64 := fun _ => none } (some [117]) (some [112]) (fun _ => true) hdrOk =
     ⟨some 400, false, none⟩ := by decide
+-- two sections a:1 (server 0) and b:2 (server 1): b's credentials are refused on server 0, served on server 1
+def twoSecs : List Section := [⟨some [97], some [49]⟩, ⟨some [98], some [50]⟩]
+def hdrB2 : List Bytes := [([65, 117, 116, 104, 111, 114, 105, 122, 97, 116, 105, 111, 110, 58, 32, 66, 97, 115, 105, 99, 32, 98, 58, 50] : Bytes)]   -- "Authorization: Basic b:2"
+example : (serveAt toyP twoSecs 0 (fun _ => true) hdrB2) = some ⟨some 401, true, none⟩ := by decide
+example : (serveAt toyP twoSecs 1 (fun _ => true) hdrB2).map (·.invoked) =
+    some (some ("xmlrpchandler", some ([98], [50]))) := by decide
 example : SomeHandlerMatches (fun n => n == "defaulthandler") := ⟨"defaulthandler", by decide, by decide⟩
 
 end Sv.Props.C17
